@@ -10,7 +10,7 @@ from .schedtable import SCHED, _calls, explore_should_run, explore_schedule
 CORE = "gwf.core"
 
 
-def rule_should_run_table(ctx, r):
+def _should_run_table_structural(ctx, r):
     fi, sem, outs = explore_should_run(ctx)
     con = f"{fi.module.relpath}::{fi.qual}"
     bad = []
@@ -84,7 +84,7 @@ def _agg_details(idx, fi, sem, call):
     return True, ""
 
 
-def rule_comparison(ctx, r):
+def _comparison_structural(ctx, r):
     idx = ctx.index
     fi, sem, outs = explore_should_run(ctx)
     con = f"{fi.module.relpath}::{fi.qual}::comparison"
@@ -139,7 +139,7 @@ def rule_comparison(ctx, r):
         r.violation(con, "newest-input / oldest-output aggregates not found", fi.where)
 
 
-def rule_guard_order(ctx, r):
+def _guard_order_structural(ctx, r):
     fi, sem, outs = explore_should_run(ctx)
     con = f"{fi.module.relpath}::{fi.qual}"
     bad = [o for o in outs if o.state.facts.get("agg_outputs") and not o.state.facts["agg_outputs"][1]]
@@ -387,12 +387,28 @@ def rule_spec_clause(ctx, r):
     rule_store_load(ctx, r, ("spec hashes",))
 
 
+def _sr_witness(ctx):
+    from .evalhelpers import cached_witness, should_run_witness
+    return cached_witness(ctx, "should_run", should_run_witness)
+
+
+def rule_should_run_table(ctx, r):
+    ctx.structural_or_witness(r, _should_run_table_structural, lambda: _sr_witness(ctx), "src/gwf/scheduling.py::should_run", both=True)
+
+
+def rule_guard_order(ctx, r):
+    ctx.structural_or_witness(r, _guard_order_structural, lambda: _sr_witness(ctx), "src/gwf/scheduling.py::should_run", both=True)
+
+
+def rule_comparison(ctx, r):
+    ctx.structural_or_witness(r, _comparison_structural, lambda: _sr_witness(ctx), "src/gwf/scheduling.py::should_run", both=True)
+
+
 def run(ctx):
     r1 = ctx.rule("R1", "path table of should_run: up to date exactly when spec unchanged, every output exists, at least one output, no input strictly newer")
     rule_should_run_table(ctx, r1)
     r2 = ctx.rule("R2", "the staleness test is max(mtime of ALL inputs) > min(mtime of ALL outputs), strict", min_instances=3)
-    from .evalhelpers import should_run_witness
-    ctx.structural_or_witness(r2, rule_comparison, lambda: should_run_witness(ctx), "src/gwf/scheduling.py::should_run", both=True)
+    rule_comparison(ctx, r2)
     r3 = ctx.rule("R3", "existence of all outputs is established before their times are read; the spec test comes first", min_instances=3)
     rule_guard_order(ctx, r3)
     r4 = ctx.rule("R4", "decision and effect code read target files only through the flattened accessors (shape independence)")
